@@ -139,6 +139,9 @@ def main():
         else:
             C.validated_against_impl()
     C.models_used |= stdmodels.USED
+    # part B: the printing templates around strings (Value::display data flow)
+    from checks import c12b
+    c12b.run_display_kernel(C, P)
     C.finish()
 
 
